@@ -71,6 +71,17 @@ type sched struct {
 	solo     bool // after a freeze: run the remaining threads one after the other
 	stick    int  // probability (percent) to keep running the same thread
 	last     int
+	// "stale snapshot" schedules: thread t is parked after parkAt[t] of its own steps; when nobody else of its phase can run, the
+	// parked threads are resumed one at a time (random order), each running alone until it is done or blocks
+	parkAt   map[int]int
+	resumed  map[int]bool
+	resuming int
+	// code with a spin lock (striped adders): a parked thread may hold it, so parking is bounded (parkFor global steps, 0 = until
+	// nobody else can run) and so is the time a resumed thread runs alone (soloMax own steps, 0 = while it can)
+	parkFor   int
+	soloMax   int
+	soloLeft  int
+	parkedAt  map[int]int
 }
 
 func (s *sched) pick(runnable []int, step int) int {
@@ -91,9 +102,41 @@ func (s *sched) pick(runnable []int, step int) int {
 			minPhase = s.phase[t]
 		}
 	}
+	var parked []int
 	for _, t := range runnable {
 		if !s.frozen[t] && s.phase[t] == minPhase {
+			if k, ok := s.parkAt[t]; ok && !s.resumed[t] && s.own[t] >= k {
+				if _, seen := s.parkedAt[t]; !seen {
+					s.parkedAt[t] = step
+				}
+				if s.parkFor == 0 || step-s.parkedAt[t] < s.parkFor {
+					parked = append(parked, t)
+					continue
+				}
+				// parked long enough: back to ordinary scheduling
+				s.resumed[t] = true
+			}
 			cand = append(cand, t)
+		}
+	}
+	if len(s.parkAt) > 0 {
+		// a resumed thread runs alone while it can
+		for _, t := range cand {
+			if t == s.resuming && (s.soloMax == 0 || s.soloLeft > 0) {
+				s.soloLeft--
+				s.last = t
+				s.own[t]++
+				return t
+			}
+		}
+		if len(cand) == 0 && len(parked) > 0 {
+			t := parked[s.rng.Intn(len(parked))]
+			s.resumed[t] = true
+			s.resuming = t
+			s.soloLeft = s.soloMax
+			s.last = t
+			s.own[t]++
+			return t
 		}
 	}
 	if len(cand) == 0 {
@@ -115,7 +158,7 @@ func (s *sched) pick(runnable []int, step int) int {
 }
 
 func newSched(rng *rand.Rand, nth int) *sched {
-	return &sched{rng: rng, phase: make([]int, nth), frozen: map[int]bool{}, freezeAt: map[int]int{}, own: make([]int, nth), last: -1,
+	return &sched{rng: rng, phase: make([]int, nth), frozen: map[int]bool{}, freezeAt: map[int]int{}, own: make([]int, nth), last: -1, parkAt: map[int]int{}, resumed: map[int]bool{}, resuming: -1, parkedAt: map[int]int{},
 		stick: []int{0, 30, 60, 85}[rng.Intn(4)]}
 }
 
